@@ -141,7 +141,7 @@ def run(ctx, out, budget):
                 "canonical id-keyed dump, re-serialisation identical, pretty_print content-neutral; writer, reader and dump compared "
                 "with the Lean model op by op. Non-trivial = distinct CASes with >= 3 separately written structures and >= 2 feature kinds.")
     rng = ctx.rng(0)
-    n = 150 if budget == "quick" else 3000
+    n = 150 if budget == "quick" else 15000
     cases = [make_case(rng, rng.randint(1, 12)) for _ in range(n)]
     if budget != "quick":
         cases += [make_case(rng, rng.randint(50, 200)) for _ in range(30)]
